@@ -431,3 +431,137 @@ def rule_objstate(ctx, classes, rule, title, only_fns=None):
     res.analysed['functions_analysed'] = nfun
     res.assumptions.append('A-ENUM-UNION: mask / capability arguments are unions of the enumerators (documented API contract)')
     return res, nfun
+
+
+# ------------------------------------------------------------------ clients: M4 (requested >= consumed), M5 (line caps)
+LINE_TYPES = ('GeographicLib::GeodesicLine', 'GeographicLib::GeodesicLineExact', 'GeographicLib::RhumbLine')
+
+
+def _forced_caps(ctx, cls):
+    """BV transformer of LineInit: _caps as a function of the caps argument (forced bits)."""
+    fs = ctx.prog.fn(cls + '::LineInit')
+    if not fs:
+        return None
+    f = fs[0]
+    fl = Flow(f)
+    return fl.env_in.get(f.cfg['exit'], {}).get('this._caps')
+
+
+def _caps_of_call(ctx, f, fl, nid, depth=0):
+    """BV of the capabilities of the line object produced by expression nid (or None)."""
+    for j in f.walk(nid):
+        n = f.nodes[j]
+        ce = n.get('callee')
+        if not ce or not ce.get('inrepo'):
+            continue
+        pn = ce.get('pn', [])
+        if 'caps' in pn and len(n.get('args', [])) > pn.index('caps'):
+            a = n['args'][pn.index('caps')]
+            bv = fl.eval_bv(a, fl.env_at(j))
+            # default argument (CXXDefaultArgExpr): evaluated by clang -> cv on the node
+            rcls = None
+            t = n.get('t', '')
+            for lt in LINE_TYPES:
+                if lt in t or ce.get('cls') == lt:
+                    rcls = lt
+            forced = _forced_caps(ctx, rcls or LINE_TYPES[0])
+            if forced is not None:
+                add = BV([forced.bits[k] if forced.bits[k] == TRUE else FALSE for k in range(NBITS)])
+                bv = bv.bor(add)
+            return bv
+    return None
+
+
+def line_caps_of(ctx, f, fl, cls_members):
+    caps = dict(cls_members)
+    for i, n in f.all_nodes():
+        if n['k'] == 'DeclStmt':
+            for d in n['decls']:
+                if any(lt in d['t'] for lt in LINE_TYPES) and d.get('pk') == 'v' and d.get('init', -1) >= 0:
+                    bv = _caps_of_call(ctx, f, fl, d['init'])
+                    if bv is not None:
+                        caps['v:' + d['d']] = bv
+    return caps
+
+
+def member_line_caps(ctx, cls):
+    """'this.m' -> BV for line-typed members assigned at exactly one site in the class."""
+    rec = ctx.prog.record(cls)
+    if rec is None:
+        return {}
+    lines = [fd['name'] for fd in rec['fields'] if any(lt == fd.get('rec') for lt in LINE_TYPES)]
+    out = {}
+    for m in lines:
+        sites = []
+        for f in ctx.lib_fns():
+            if f.cls != cls or not f.cfg:
+                continue
+            for i, n in f.all_nodes():
+                tgt = None
+                if n['k'] == 'CXXOperatorCallExpr' and n.get('op') == '=' and n.get('args'):
+                    tgt = (n['args'][0], n['args'][1])
+                elif n['k'] == 'BinaryOperator' and n.get('op') == '=':
+                    tgt = (n['ch'][0], n['ch'][1])
+                if tgt:
+                    ln = f.nodes[f.strip(tgt[0])]
+                    if ln['k'] == 'MemberExpr' and ln.get('thisbase') and ln.get('m') == m:
+                        sites.append((f, tgt[1]))
+            for it in f.d.get('inits', []):
+                if it.get('kind') == 'member' and it.get('m') == m and it.get('written') and it['init'] >= 0:
+                    sites.append((f, it['init']))
+        bvs = []
+        for f, rhs in sites:
+            bv = _caps_of_call(ctx, f, Flow(f), rhs)
+            if bv is not None:
+                bvs.append(bv)
+        if bvs and len(bvs) == len(sites) and all(b == bvs[0] for b in bvs):
+            out['this.' + m] = bvs[0]
+    return out
+
+
+def rule_clients(ctx, classes, rule='M4c', title=None):
+    res = RuleResult(rule, title or 'requested >= consumed in the clients of the solvers, and line-caps typestate: every '
+                                    'output of a solver / line call that is consumed was requested by the mask passed and, '
+                                    'for lines built in place, lies within the capabilities the line was constructed with')
+    lc = get_licctx(ctx)
+    nfun = 0
+    ncalls = 0
+    for cls in classes:
+        mcaps = member_line_caps(ctx, cls)
+        res.analysed.setdefault('member_lines', {})[cls.replace(NS, '')] = {k: v.show() for k, v in mcaps.items()}
+        for f in sorted(ctx.lib_fns(), key=lambda x: (x.file, x.line)):
+            if f.cls != cls or not f.cfg or f.d.get('implicit'):
+                continue
+            calls = [n for i, n in f.all_nodes() if n.get('callee') and n['callee'].get('usr') in lc.gated]
+            if not calls:
+                continue
+            nfun += 1
+            ncalls += len(calls)
+            fl = lc.flow(f, None)
+            caps = line_caps_of(ctx, f, fl, mcaps)
+            lic = Lic(ctx, f, fl, gated=lc.gated, ax=lc.axioms(NS + 'Geodesic'), line_caps=caps,
+                      member_writes=lc.member_writes, init_mode=f.is_ctor)
+            res.obligations += lic.nsinks
+            res.discharged += lic.nsinks - len({e for e, w, _, _ in lic.reports})
+            seen = set()
+            for e, what, vu, wit in lic.reports:
+                who = _culprits(f, lic, e, vu, {})
+                if who in seen:
+                    continue
+                seen.add(who)
+                from .. import tables as T
+                if all((f.q, w) in T.LIC_AUDITED for w in who.split(',')):
+                    res.note('audited: %s in %s: %s' % (who, f.q, T.LIC_AUDITED[(f.q, who.split(',')[0])]))
+                    res.discharged += 1
+                    continue
+                res.fail(f.q, who, f.loc(e), '%s consumes %s (%s) although the solver/line call that should produce it '
+                         'does not request it, or the line lacks the capability (not produced when %s)'
+                         % (f.q, who, what, _show(frozenset(c - {DECL} for c in vu))))
+            if len(res.samples) < 6:
+                res.samples.append({'fn': f.q, 'solver_calls': len(calls), 'sinks': lic.nsinks,
+                                    'lines_with_known_caps': {k: v.show() for k, v in caps.items()}})
+    res.analysed['client_functions'] = nfun
+    res.analysed['solver_call_sites'] = ncalls
+    res.assumptions.append('A-CAPS-PARAM: lines received as parameters have the capabilities the function documents')
+    res.assumptions.append('A-ENUM-UNION')
+    return res, nfun, ncalls
